@@ -556,7 +556,7 @@ impl Property for C12 {
         out
     }
     fn rule(&self) -> String {
-        "histories of 3-6 x max_retained_runs completed runs (max in {1,2,3,5}; one history in six rewrites max_retained_runs part-way - afterwards: latest run exact, each of the last max runs shown by some --id once max runs have completed under the new limit, never more directories than the largest limit ever in force), each run with a fresh choice of commands, explicit targets, outputs tagged with the run's serial number, one quarter with a failing child; after every run: result show = printed document, log show = exactly that run's non-empty logs, log show --id for each of the last max runs, directory count, pointer = slot ring model. Non-trivial = >= 2 wrap-arounds and a slot whose new occupant has a strict subset of the old occupant's directories; distinct = (max, per-run commands/targets/failure)".into()
+        "histories of 3-6 x max_retained_runs completed runs (max in {1,2,3,5}; one history in six rewrites max_retained_runs part-way - afterwards: latest run exact, each of the last max runs shown by some --id once max runs have completed under the new limit, never more directories than the largest limit ever in force), each run with a fresh choice of commands, explicit targets, outputs tagged with the run's serial number, one quarter with a failing child; after every run: result show = printed document, log show = exactly that run's non-empty logs, log show --id for each of the last max runs, directory count, pointer = slot ring model. Round 11: one history in three runs every invocation under a wrong or jumping wall clock. Non-trivial = >= 2 wrap-arounds and a slot whose new occupant has a strict subset of the old occupant's directories; distinct = (max, per-run commands/targets/failure)".into()
     }
     fn components(&self) -> Value {
         components()
@@ -1030,7 +1030,7 @@ impl Property for C13 {
         outv
     }
     fn rule(&self) -> String {
-        "history prefix of 0-3 completed runs and an optional checkpoint (max_retained_runs >= 2; one history in five has 1-6 runs under one limit and rewrites max_retained_runs - lowered or raised - before the run that is killed; one history in four has 1-4 earlier runs killed in a row while their children ran, each followed by the same comparison); a recording pass lists every filesystem effect of the run to be killed (LD_PRELOAD shim), every parked point and every controller decision step; the run is then re-executed from the restored state and killed before / after each effect, after half of each write (torn), at each parked point and between helper steps (quick: seeded sample of 10 points per scenario always including effects on the pointer and result files; thorough: every point). Oracle: result show / log show / checkpoint show unchanged (or the killed run's own complete record once the pointer update has completed), next run succeeds and becomes the latest within max slots. Non-trivial = state existed to be damaged (a completed run or a checkpoint) and at least one crash was executed; distinct = (targets, prefix length, crash-run options, checkpoint)".into()
+        "history prefix of 0-3 completed runs and an optional checkpoint (max_retained_runs >= 2; one history in five has 1-6 runs under one limit and rewrites max_retained_runs - lowered or raised - before the run that is killed; one history in four has 1-4 earlier runs killed in a row while their children ran, each followed by the same comparison); a recording pass lists every filesystem effect of the run to be killed (LD_PRELOAD shim), every parked point and every controller decision step; the run is then re-executed from the restored state and killed before / after each effect, after half of each write (torn), at each parked point and between helper steps (quick: seeded sample of 10 points per scenario always including effects on the pointer and result files; thorough: every point). Oracle: result show / log show / checkpoint show unchanged (or the killed run's own complete record once the pointer update has completed), next run succeeds and becomes the latest within max slots. Rounds 11-12: one history in three under wrong and jumping wall clocks; one checkpointed history in three has a stale pending entry, uncommitted edits in every target and a killed run that selects by change (a run never writes the checkpoint); the crash points are drawn from a canonical effect list (every effect except the 2nd and later writes of a log archive, whose number depends on the flush timer). Non-trivial = state existed to be damaged (a completed run or a checkpoint) and at least one crash was executed; distinct = (targets, prefix length, crash-run options, checkpoint)".into()
     }
     fn components(&self) -> Value {
         components()
